@@ -402,14 +402,15 @@ func (c *Ctx) flagShadow(regs []*flagReg) {
 	c.Trivial("FLAGDEF-SHADOW", "scan", token.NoPos, fmt.Sprintf("%d registrations compared with the persistent options of their ancestors", n))
 }
 
-// flagRegsByParamDefault: registration `reg` inside helper fd takes its default from a parameter of
-// fd (addFlags(cmd, 0.3) ... FlagSet.Float64Var(&v, name, dflt, usage)). Returns one registration per
+// flagRegsByParamDefault: registration `reg` inside helper fd takes its default and/or the command
+// whose flag set it extends from a parameter of fd (addFlags(cmd, 0.3) ... cmd.Flags().Float64Var(&v,
+// name, dflt, usage)). Returns one registration per
 // call of fd in the package, carrying the argument of that call as default (and the command given
 // there when the flag set belongs to a command parameter); nil when the default is no parameter.
 func (c *Ctx) flagRegsByParamDefault(p *packages.Package, fd *ast.FuncDecl, reg *ast.CallExpr, r *flagReg) []*flagReg {
 	info := p.TypesInfo
 	helper, _ := info.Defs[fd.Name].(*types.Func)
-	if helper == nil || r.isCons {
+	if helper == nil {
 		return nil
 	}
 	defIdx := 2
@@ -431,9 +432,9 @@ func (c *Ctx) flagRegsByParamDefault(p *packages.Package, fd *ast.FuncDecl, reg 
 			}
 		}
 	}
-	dk := paramIdx(reg.Args[defIdx])
-	if dk < 0 {
-		return nil
+	dk := -1
+	if !r.isCons {
+		dk = paramIdx(reg.Args[defIdx])
 	}
 	cmdK := -1
 	if sel, ok := unparen(reg.Fun).(*ast.SelectorExpr); ok {
@@ -442,6 +443,10 @@ func (c *Ctx) flagRegsByParamDefault(p *packages.Package, fd *ast.FuncDecl, reg 
 				cmdK = paramIdx(s2.X)
 			}
 		}
+	}
+	// nothing of the registration depends on the helper's parameters: it is what it is
+	if dk < 0 && cmdK < 0 {
+		return nil
 	}
 	var out []*flagReg
 	for _, f := range p.Syntax {
@@ -458,10 +463,12 @@ func (c *Ctx) flagRegsByParamDefault(p *packages.Package, fd *ast.FuncDecl, reg 
 				cp := *r
 				cp.call = reg
 				cp.fn = cur + "→" + fd.Name.Name
-				if tv, ok := info.Types[call.Args[dk]]; ok && tv.Value != nil {
-					cp.def, cp.isCons = constText(tv.Value), true
-				} else {
-					cp.def, cp.isCons = c.canon(info, call.Args[dk], nil), false
+				if dk >= 0 {
+					if tv, ok := info.Types[call.Args[dk]]; ok && tv.Value != nil {
+						cp.def, cp.isCons = constText(tv.Value), true
+					} else {
+						cp.def, cp.isCons = c.canon(info, call.Args[dk], nil), false
+					}
 				}
 				if cmdK >= 0 && cmdK < len(call.Args) {
 					cp.cmdVar = types.ExprString(call.Args[cmdK])
